@@ -117,7 +117,13 @@ class _STIXBase(collections.abc.Mapping):
             # types without a granular_markings property this is arbitrary
             # custom content.
             if isinstance(m, collections.abc.Mapping):
-                validate(self, m.get('selectors'))
+                try:
+                    validate(self, m.get('selectors'))
+                except RecursionError:
+                    raise ValueError(
+                        "Can't check selectors against content which is "
+                        "nested this deeply.",
+                    )
 
     def __init__(self, allow_custom=False, interoperability=False, **kwargs):
         cls = self.__class__
